@@ -16,6 +16,13 @@ share a mutable state object by construction — on the implementation that is s
 Game flow: `startGame`, `addPlayer`, `drain` (ball end: extra ball → same player again; else next player / next
 ball / game over), `endGame`; `dev d code` sends control event `code` to device `d`, `swap d1 d2` is a two-shot
 shot-group rotation.
+
+Time: `wait n` lets `n` time units pass.  What a device keeps in the device object itself rather than in the player
+(`Loc`: for a timer whether it runs, the time to its next tick, the time to the end of a timed pause) is created when
+the mode starts (`loc0`) and only ever used while the mode runs (`tick`, `act`); while no mode runs time changes nothing.
+The game mode starts with every ball (`autoStart`) or only by request (`modeStart`).  List-valued progress (an accrual)
+is `Val.ablk`, an immutable copy per player.  `setP` / `addP` are `variable_player` entries with an explicit `player:`,
+`setMachine` / `addMachine` the machine-scope ones (`St.machine`, owned by nobody).
 -/
 namespace MpfVerif.Player
 
